@@ -371,14 +371,20 @@ def literal_plumbing(ctx):
             src = None
             if a[0] in ('move', 'copy'):
                 pl = a[1]
-                # follow one temporary
-                if not pl['p']:
+                # follow temporaries / named locals that merely carry the value (the interpreted rule literal_driver
+                # decides the same thing on the abstract state: make's argument is the buffer after flush_pending)
+                src = pl
+                for _ in range(6):
+                    if src['p']:
+                        break
+                    nxt = None
                     for b2 in fn.blocks:
                         for s in b2['stmts']:
-                            if s[0] == 'assign' and s[1]['l'] == pl['l'] and not s[1]['p'] and s[2][0] == 'use' and s[2][1][0] in ('move', 'copy'):
-                                src = s[2][1][1]
-                else:
-                    src = pl
+                            if s[0] == 'assign' and s[1]['l'] == src['l'] and not s[1]['p'] and s[2][0] == 'use' and s[2][1][0] in ('move', 'copy'):
+                                nxt = s[2][1][1]
+                    if nxt is None:
+                        break
+                    src = nxt
             if src is not None and src['p'] and src['p'][-1][0] == 'field' and src['p'][-1][2] == 'string_so_far':
                 base = src['l']
                 ok = base == parser_local or _is_alias(fn, base, parser_local)
